@@ -166,7 +166,7 @@ def _is_directory(t):
         return _is_directory(t[2]) and not (is_const(t[2]) and t[2][1] == "")
     if t[0] == "fstr" and t[1]:
         return _is_directory(t[1][-1])
-    if t[0] == "fmt" and t[2] == -1 and t[3] is None:
+    if t[0] == "fmt" and t[2] in (-1, 115) and t[3] is None:
         return _is_directory(t[1])
     if t[0] == "call" and t[1] in ("os.path.join", "join") and t[2] and is_const(t[2][-1]) and t[2][-1][1] == "":
         return True
@@ -261,7 +261,7 @@ def template_rule(ctx, chk, rule, f, name_term, table, source_of, tail_spec, hea
                           expected="...%s{%s}..." % (want_lit, param), found=text, construct="%s name template shape" % f.short)
             return
         lit, hole = pieces[i][1], pieces[i + 1][1]
-        if hole[0] == "fmt" and hole[2] == -1 and hole[3] is None:
+        if hole[0] == "fmt" and hole[2] in (-1, 115) and hole[3] is None:
             # f"{x}" is str(x); f"{prob_to_str(p)}" is prob_to_str(p)
             inner = hole[1]
             hole = inner if (inner[0] == "call" and inner[1] in ("str", "prob_to_str")) else ("call", "str", (inner,), ())
@@ -336,7 +336,7 @@ def r2_templates(ctx, chk, rule="C17.2"):
             def tail(rest):
                 if len(rest) == 2 and rest[0][0] == "hole" and rest[1] == ("lit", ".py"):
                     h = rest[0][1]
-                    if h[0] == "fmt" and h[2] == -1 and h[3] is None:
+                    if h[0] == "fmt" and h[2] in (-1, 115) and h[3] is None:
                         h = h[1]
                     if h == simp(("ite", ("truthy", fd), C("_force_down"), C(""))):
                         return True, "suffix '_force_down' iff the force_down flag"
@@ -390,7 +390,7 @@ def r2_templates(ctx, chk, rule="C17.2"):
             def tail2(rest):
                 if len(rest) == 3 and rest[0] == ("lit", "_") and rest[1][0] == "hole" and rest[2] == ("lit", ".py"):
                     h = rest[1][1]
-                    if h[0] == "fmt" and h[2] == -1 and h[3] is None:
+                    if h[0] == "fmt" and h[2] in (-1, 115) and h[3] is None:
                         h = h[1]
                     if h[0] == "ite" and h[2] == C("force_down") and h[3] == C(""):
                         # the condition must say "the board has a down-only tile": true exactly when the largest arrow code is 3
@@ -444,6 +444,7 @@ def r3_matrix_max(ctx, chk, rule="C17.4"):
 
 
 def run(ctx, chk):
+    shared.rule_single_use_iterators(ctx, chk, "C17.0:iter", shared.GENERATOR_MODULES)
     shared.rule_mutable_defaults(ctx, chk, "C17.0:defaults", shared.GENERATOR_MODULES)      # a call must not depend on the calls made before it
     from . import C15 as _C15
     _C15.parse_args_source(ctx, chk, "C17.2")        # the name states the parameters of this invocation only if this invocation's arguments are parsed
